@@ -331,7 +331,12 @@ class SF:
         if k == 2:
             return self * self
         if k == 0.5:
-            raise Unsupported("sqrt")
+            from .runtime import current
+            rt = current()
+            s_ = rt.fresh("sqrt", "Real")
+            # square root by its defining property (no approximation): s >= 0 and s*s == v for v >= 0; NaN for v < 0
+            rt.pre.append(z3.Implies(self.v >= 0, z3.And(s_ >= 0, s_ * s_ == self.v)))
+            return SF(b_or(self.nan, self.v < 0), s_)
         raise Unsupported(f"pow {k}")
 
     def to_int(self):
@@ -493,6 +498,11 @@ def _defer_to_sf(cls, name):
             return NotImplemented
         if hasattr(other, "dtype") and hasattr(other, "item") and not is_sym(other):
             other = other.item()          # numpy scalar
+        if _orig.__name__ in ("__truediv__", "__div__", "__rtruediv__") and z3.is_int(self) and (
+                isinstance(other, int) or (is_sym(other) and z3.is_int(other))):
+            # python/numpy true division of integers is a float, not z3's integer division
+            a, b = SF.of(self), SF.of(other)
+            return b / a if _orig.__name__ == "__rtruediv__" else a / b
         if isinstance(other, float) and not (z3.is_real(self)):
             return getattr(SF.of(self), name)(other)
         return _orig(self, other)
@@ -500,7 +510,7 @@ def _defer_to_sf(cls, name):
 
 
 for _n in ("__add__", "__sub__", "__mul__", "__truediv__", "__div__", "__lt__", "__le__", "__gt__", "__ge__",
-           "__radd__", "__rsub__", "__rmul__"):
+           "__radd__", "__rsub__", "__rmul__", "__rtruediv__"):
     _defer_to_sf(z3.ArithRef, _n)
     _defer_to_sf(z3.BoolRef, _n)
 
